@@ -187,7 +187,9 @@ def _tok(prefix="zq"):
 
 def _invalid_acl_line(rng, platform):
     tok = _tok()
-    kind = rng.choice(["soup", "broken", "proto", "addr", "number", "remark0", "lenient", "opt-upper", "dup-action", "skipword"])
+    kind = rng.choice(["soup", "broken", "proto", "addr", "number", "remark0", "lenient", "opt-upper", "dup-action", "skipword", "bang"])
+    if kind == "bang":  # a comment line *inside* the section (indented): not an entry, so it has to be reported like any other
+        return rng.choice([f"! {tok} note", f"!{tok}"]), kind, tok
     if kind == "skipword":
         return rng.choice([f"no statistics per-entry {tok}", f"hardware ignore routable {tok}", f"my description {tok}"]), kind, tok
     if kind == "soup":
@@ -250,11 +252,13 @@ def gen_case(rng):
         case = {"cls": cls_name, "platform": platform, "lines": lines, "indent": indent, "type": acl_type}
         if rng.random() < 0.15:
             case["blanks"] = rng.sample(["\x0c", "\r", "\x0b", "\x1c", "\x85", "\u2028", "\t"], 3)
+        if cls_name == "AceGroup" and heading and rng.random() < 0.5:
+            case["group_by"] = heading  # the keyword exists on the block class too; item order still equals line order
         if cls_name == "Acl":
             case["header"] = grammar.acl_header(platform, rng.choice(grammar.ACL_NAMES), acl_type)
             if heading and rng.random() < 0.5:
                 case["group_by"] = heading
-            if rng.random() < 0.25 and lines and not any(ln[0].startswith("!") for ln in lines):
+            if rng.random() < 0.25 and lines:
                 case["via_config"] = True
                 case["indent"] = rng.choice([" ", "  ", "\t", "\t\t", " \t"])
         return case
@@ -276,7 +280,8 @@ def gen_case(rng):
         else:
             tok = _tok()
             bad = rng.choice([f"foo {tok}", "host 300.1.1.1", "10.0.0.0 255.0.255.0" if platform == "ios" else "group-object G9",
-                              f"range {tok}", "range 10.0.0.5 10.0.0.9", "10.0.0.0/40", "any" if platform == "ios" else f"any{tok}"])
+                              f"range {tok}", "range 10.0.0.5 10.0.0.9", "10.0.0.0/40", "any" if platform == "ios" else f"any{tok}",
+                              f"! {tok} memo"])
             lines.append([bad, "invalid", "member", ""])
     name = rng.choice(["G1", "NET-A", "x_1"])
     header = f"object-group network {name}" if platform == "ios" else f"object-group ip address {name}"
